@@ -1,2 +1,214 @@
+"""Self-test corpora.
+
+MUTANTS: behaviour-breaking edits, applied in memory as file overrides of the current working tree (never written to
+disk, never executed); each must be reported VIOLATES by the named rule for the named property.
+REFACTORINGS: behaviour-preserving edits; no new violation may appear.
+An edit whose `old` text is not found in the current source is skipped (reported in the evidence), because the tree
+has moved away from the instance it was written for.
+"""
+import glob
+import json
+import os
+import time
+
+A = 'src/gambatools/'
+
+# (id, properties, file, old, new, expected rule prefix)
+MUTANTS = [
+    # ---- R-WORK -------------------------------------------------------------------------------------------------------------
+    ('work-closure-overwrite', ['C01'], A + 'nfa_algorithms.py', '        todo = todo | Q1\n    return result', '        todo = Q1\n    return result', 'R-WORK.W1'),
+    ('work-closure-no-seen', ['C01'], A + 'nfa_algorithms.py', 'N.delta.get((q, N.epsilon), set()) - result', 'N.delta.get((q, N.epsilon), set())', 'R-WORK.W2'),
+    ('work-closure-result-not-grown', ['C01'], A + 'nfa_algorithms.py', '        result = result | Q1\n        todo = todo | Q1', '        todo = todo | Q1', 'R-WORK.W2'),
+    ('work-subset-guard-deleted', ['C03'], A + 'nfa_algorithms.py', '            if stateQ2 not in Q:\n                Q.add(stateQ2)\n                todo.append(Q2)', '            Q.add(stateQ2)\n            todo.append(Q2)', 'R-WORK.W2'),
+    ('work-subset-guard-negated', ['C03'], A + 'nfa_algorithms.py', '            if stateQ2 not in Q:\n                Q.add(stateQ2)', '            if stateQ2 in Q:\n                Q.add(stateQ2)', 'R-WORK.W2'),
+    ('work-subset-no-marking', ['C03'], A + 'nfa_algorithms.py', '            if stateQ2 not in Q:\n                Q.add(stateQ2)\n                todo.append(Q2)', '            if stateQ2 not in Q:\n                todo.append(Q2)', 'R-WORK.W2'),
+    ('work-pda-bound-tightened', ['C09'], A + 'pda_algorithms.py', 'max_iterations = GambaTools.pda_epsilon_closure_max_iterations\n', 'max_iterations = GambaTools.pda_epsilon_closure_max_iterations - 1\n', 'R-WORK.W4'),
+    ('work-pda-double-increment', ['C09'], A + 'pda_algorithms.py', '        iteration += 1\n        src = todo.pop()', '        iteration += 1\n        src = todo.pop()\n        iteration += 1', 'R-WORK.W4'),
+    ('work-pda-counter-from-one', ['C09'], A + 'pda_algorithms.py', '    iteration = 0\n\n    while len(todo) > 0 and iteration < max_iterations:', '    iteration = 1\n\n    while len(todo) > 0 and iteration < max_iterations:', 'R-WORK.W4'),
+    ('work-pda-unmarked', ['C09'], A + 'pda_algorithms.py', '                    if target not in result:\n                        todo.add(target)\n                        result.add(target)\n    return result', '                    if target not in result:\n                        todo.add(target)\n    return result', 'R-WORK.W2'),
+    ('work-backpointer-hoisted', ['C15'], A + 'nfa_algorithms.py', '                target = q\n                if target not in visited:\n                    backpointers[target] = src', '                target = q\n                backpointers[target] = src\n                if target not in visited:', 'R-WORK.W3'),
+    ('work-pda-backpointer-hoisted', ['C15'], A + 'pda_algorithms.py', '                    target = PDAState(q, stack1)\n                    if target not in visited:\n                        backpointers[target] = src', '                    target = PDAState(q, stack1)\n                    backpointers[target] = src\n                    if target not in visited:', 'R-WORK.W3'),
+    ('work-iso-polarity', ['C20'], A + 'dfa_algorithms.py', '            if not matching[q1_, q2_]:', '            if matching[q1_, q2_]:', 'R-WORK.W2'),
+    ('work-iso1-no-guard', ['C20'], A + 'dfa_algorithms.py', '            if q1_ not in matching and q2_ not in inverse:\n                todo.add((q1_, q2_))\n            elif', '            todo.add((q1_, q2_))\n            if', 'R-WORK.W2'),
+    ('work-flag-dropped-minimize', ['C04'], A + 'dfa_algorithms.py', '                        table[i, j] = False\n                        changed = True\n', '                        table[i, j] = False\n', 'R-WORK.W5'),
+    ('work-flag-dropped-nullable', ['C08'], A + 'cfg_algorithms.py', '                nullable.add(r.variable)\n                changed = True', '                nullable.add(r.variable)', 'R-WORK.W5'),
+    ('work-snapshot-alias', ['C08'], A + 'cfg_algorithms.py', '        W1 = W.copy()', '        W1 = W', 'R-WORK.W5'),
+    ('work-quotient-no-replace', ['C04'], A + 'dfa_algorithms.py', '        if equal_sets(VV, VV1):\n            break\n        else:\n            VV = VV1', '        if equal_sets(VV, VV1):\n            break', 'R-WORK.W5'),
+    ('work-quotient-one-inclusion', ['C04'], A + 'dfa_algorithms.py', '        return all(x in B for x in A) and all(x in A for x in B)', '        return all(x in B for x in A)', 'R-WORK.W5'),
+    ('work-hopcroft-no-split-test', ['C04'], A + 'dfa_algorithms.py', "            if len(P1) == 0 or len(P2) == 0:\n                log('continue')\n                continue\n", '', 'R-WORK.hopcroft'),
+    ('work-reachable-exit', ['C14'], A + 'dfa_algorithms.py', '        if not Vnext:\n            break', '        if d > len(D.Q):\n            break', 'R-WORK.W4'),
+    ('work-reachable-no-mark', ['C14'], A + 'dfa_algorithms.py', '            if v not in discovered:\n                discovered.add(v)\n                Vnext.add(v)', '            if v not in discovered:\n                Vnext.add(v)', 'R-WORK.W2'),
+    # ---- R-EFFECT / R-TWIN / R-STATE -----------------------------------------------------------------------------------------
+    ('effect-complement-shares', ['C19', 'C14'], A + 'dfa_algorithms.py', '    return DFA(set(Q), Sigma, dict(delta), q0, Q - F)', '    return DFA(Q, Sigma, delta, q0, Q - F)', 'R-EFFECT.b'),
+    ('effect-noextend-shares', ['C19', 'C14'], A + 'dfa_algorithms.py', '    Q = D.Q.copy()\n    Sigma = D.Sigma.copy()\n    delta = dict(D.delta)', '    Q = D.Q\n    Sigma = D.Sigma.copy()\n    delta = D.delta', 'R-EFFECT.b'),
+    ('effect-unguarded-read', ['C19', 'C01'], A + 'nfa_algorithms.py', 'N.delta.get((q, N.epsilon), set()) - result', 'N.delta[q, N.epsilon] - result', 'R-EFFECT.c'),
+    ('effect-product-mutates', ['C19', 'C14'], A + 'dfa_algorithms.py', '    Sigma = Sigma1\n    delta = {', '    Sigma = Sigma1\n    Q1.add(q01)\n    delta = {', 'R-EFFECT.a'),
+    ('effect-chomsky-no-copy', ['C19', 'C08'], A + 'cfg_algorithms.py', 'def cfg_to_chomsky(G: CFG, verbose: bool = False) -> CFG:\n    G = copy.deepcopy(G)\n', 'def cfg_to_chomsky(G: CFG, verbose: bool = False) -> CFG:\n', 'R-TWIN.copy'),
+    ('effect-pda2cfg-no-copy', ['C10', 'C19'], A + 'pda_algorithms.py', '    P = copy.deepcopy(P)\n\n    if len(P.F) != 1:', '    if len(P.F) != 1:', 'R-EFFECT.a'),
+    ('effect-accepts-shallow', ['C19'], A + 'cfg_algorithms.py', 'def cfg_eliminate_terminals(G: CFG) -> CFG:\n    G = copy.deepcopy(G)', 'def cfg_eliminate_terminals(G: CFG) -> CFG:\n    G = copy.copy(G)', 'R-TWIN'),
+    ('twin-self-call', ['C14', 'C19'], A + 'dfa_algorithms.py', '    D = copy.deepcopy(D)\n    dfa_make_total_in_place(D)', '    D = copy.deepcopy(D)\n    dfa_make_total(D)', 'R-TWIN.call'),
+    ('twin-returns-original', ['C10'], A + 'pda_algorithms.py', 'def pda_to_push_pop(P: PDA) -> PDA:\n    """Brings the PDA P in push/pop format"""\n    P = copy.deepcopy(P)\n    pda_to_push_pop_in_place(P)\n    return P', 'def pda_to_push_pop(P: PDA) -> PDA:\n    """Brings the PDA P in push/pop format"""\n    P1 = copy.deepcopy(P)\n    pda_to_push_pop_in_place(P1)\n    return P', 'R-TWIN.return'),
+    ('twin-hint-dropped', ['C08'], A + 'cfg_algorithms.py', "    G = copy.deepcopy(G)\n    cfg_add_new_start_variable_in_place(G, hint)", "    G = copy.deepcopy(G)\n    cfg_add_new_start_variable_in_place(G)", 'R-TWIN.args'),
+    ('state-limit-in-default', ['C09', 'C19'], A + 'pda_algorithms.py', 'def pda_epsilon_closure(P: PDA, R: Iterable[PDAState]) -> Set[PDAState]:', 'def pda_epsilon_closure(P: PDA, R: Iterable[PDAState], limit=GambaTools.pda_epsilon_closure_max_iterations) -> Set[PDAState]:', 'R-STATE.a'),
+    ('state-flag-mutates', ['C19'], A + 'cfg_algorithms.py', "    if verbose: print('--- cfg_remove_epsilon_rules_in_place ---\\n', G, '\\n variables =', *G.V)", "    if verbose: G.V.add(Variable('X'))", 'R-STATE.b'),
+    ('state-module-memo', ['C19', 'C01'], A + 'nfa_algorithms.py', 'def epsilon_closure(N: NFA, q: Union[State, Set[State]]) -> Set[State]:\n', '_closure_memo = {}\n\n\ndef epsilon_closure(N: NFA, q: Union[State, Set[State]]) -> Set[State]:\n    key = (id(N), str(q))\n    if key in _closure_memo:\n        return _closure_memo[key]\n    _closure_memo[key] = set()\n', 'R-STATE.c'),
+    ('state-lru-cache', ['C19', 'C04'], A + 'dfa_algorithms.py', 'def dfa_quotient(D: DFA) -> DFA:', 'import functools\n\n\n@functools.lru_cache(maxsize=None)\ndef dfa_quotient(D: DFA) -> DFA:', 'R-STATE.c'),
+    # ---- R-FRESH / R-EPS ----------------------------------------------------------------------------------------------------------
+    ('fresh-literal-trap', ['C14'], A + 'dfa_algorithms.py', "    q_trap = fresh_state(Q, 'trap')", "    q_trap = State('trap')", 'R-FRESH.site'),
+    ('fresh-partial-universe', ['C18', 'C06'], A + 'nfa_algorithms.py', '    q0 = _fresh_nfa_state(N1.Q | N2.Q, id_generator)', '    q0 = _fresh_nfa_state(N1.Q, id_generator)', 'R-FRESH.site'),
+    ('fresh-provider-weakened', ['C14', 'C10'], A + 'dfa_algorithms.py', "        q = State('{}{}'.format(hint, index))\n        if q not in Q:\n            return q", "        q = State('{}{}'.format(hint, index))\n        if index > 0:\n            return q", 'R-FRESH.provider'),
+    ('fresh-no-add-between', ['C10'], A + 'pda_algorithms.py', "    q_drain = fresh_state(Q, 'q_drain')\n    Q.add(q_drain)\n    q_accept = fresh_state(Q, 'q_accept')", "    q_drain = fresh_state(Q, 'q')\n    q_accept = fresh_state(Q, 'q')\n    Q.add(q_drain)", 'R-FRESH.order'),
+    ('fresh-cfg-literal', ['C08'], A + 'cfg_algorithms.py', '    S0 = cfg_fresh_variable(G, hint)', "    S0 = Variable('S0')", 'R-FRESH.site'),
+    ('fresh-cfg-falloff', ['C08'], A + 'cfg_algorithms.py', '    if len(V) >= 26:', '    if len(V) > 26:', 'R-FRESH.provider'),
+    ('eps-default-ctor', ['C18', 'C06'], A + 'nfa_algorithms.py', '    delta[q0, epsilon] = {N1.q0, N2.q0}\n    return NFA(Q, Sigma, delta, q0, F, epsilon)', '    delta[q0, epsilon] = {N1.q0, N2.q0}\n    return NFA(Q, Sigma, delta, q0, F)', 'R-EPS'),
+    ('eps-reverse-mismatch', ['C14'], A + 'dfa_algorithms.py', '    delta[q0, epsilon] = D.F.copy()\n    F = {D.q0}\n\n    return NFA(Q, Sigma, delta, q0, F, epsilon)', "    delta[q0, epsilon] = D.F.copy()\n    F = {D.q0}\n\n    return NFA(Q, Sigma, delta, q0, F, Symbol('_'))", 'R-EPS'),
+    ('eps-no-translation', ['C18', 'C06'], A + 'nfa_algorithms.py', '        a1 = epsilon if a == N.epsilon else a\n', '        a1 = a\n', 'R-EPS'),
+    # ---- R-MODEL ----------------------------------------------------------------------------------------------------------------------
+    ('m1-union-and', ['C14'], A + 'dfa_algorithms.py', "final_states = list((q1, q2) for (q1, q2) in states if q1 in F1 or q2 in F2)", "final_states = list((q1, q2) for (q1, q2) in states if q1 in F1 and q2 in F2)", 'R-MODEL.M1'),
+    ('m1-xor-half', ['C14'], A + 'dfa_algorithms.py', "if (q1 in F1 and q2 not in F2) or (q1 not in F1 and q2 in F2))", "if (q1 in F1 and q2 not in F2))", 'R-MODEL.M1'),
+    ('m1-complement-F', ['C14'], A + 'dfa_algorithms.py', 'dict(delta), q0, Q - F)', 'dict(delta), q0, F)', 'R-MODEL.M1'),
+    ('m1-wrapper-swapped', ['C14'], A + 'dfa_algorithms.py', "    return dfa_product(D1, D2, 'intersection')", "    return dfa_product(D1, D2, 'union')", 'R-MODEL.M1'),
+    ('m2-reverse-roles', ['C14'], A + 'dfa_algorithms.py', '        delta[q1, a].add(q)\n    delta[q0, epsilon] = D.F.copy()', '        delta[q, a].add(q1)\n    delta[q0, epsilon] = D.F.copy()', 'R-MODEL.M2'),
+    ('m2-noprefix-target', ['C14'], A + 'dfa_algorithms.py', '        if q not in D.F:\n            delta[q, a].add(q1)', '        if q1 not in D.F:\n            delta[q, a].add(q1)', 'R-MODEL.M2'),
+    ('m2-product-symbol', ['C14'], A + 'dfa_algorithms.py', 'make_state(delta1[q1, a], delta2[q2, a])', 'make_state(delta1[q1, a], delta2[q1, a])', 'R-MODEL.M2'),
+    ('m2-total-overwrite', ['C14'], A + 'dfa_algorithms.py', '            if not (q, a) in delta:\n                delta[q, a] = q_trap', '            delta[q, a] = q_trap', 'R-MODEL.M2'),
+    ('m3-rule-wrong', ['C05', 'C06'], A + 'regexp_algorithms.py', '        if isinstance(left, Zero):\n            result = right\n        elif isinstance(right, Zero):\n            result = left', '        if isinstance(left, Zero):\n            result = Zero()\n        elif isinstance(right, Zero):\n            result = left', 'R-MODEL.M3'),
+    ('m3-one-as-zero', ['C05', 'C06'], A + 'regexp_algorithms.py', '        elif isinstance(left, One):\n            result = right', '        elif isinstance(left, One):\n            result = Zero()', 'R-MODEL.M3'),
+    ('m3-child-not-simplified', ['C05'], A + 'regexp_algorithms.py', '        left = regexp_simplify(r.left)\n        right = regexp_simplify(r.right)\n        if isinstance(left, Zero):\n            result = right', '        left = regexp_simplify(r.left)\n        right = left\n        if isinstance(left, Zero):\n            result = right', 'R-MODEL.M3'),
+    ('m3m-star-from-zero', ['C05'], A + 'regexp_algorithms.py', 'regexp_accepts_word(r, w[k:]) for k in range(1, len(w) + 1))', 'regexp_accepts_word(r, w[k:]) for k in range(0, len(w)))', 'R-MODEL.M3m'),
+    ('m3m-concat-range', ['C05'], A + 'regexp_algorithms.py', 'regexp_accepts_word(r.right, w[k:]) for k in range(len(w) + 1))', 'regexp_accepts_word(r.right, w[k:]) for k in range(len(w)))', 'R-MODEL.M3m'),
+    ('m4-no-direct', ['C06'], A + 'regexp_algorithms.py', 'R = regexp_simplify(Sum(Concat(R1, Concat(Iteration(R2), R3)), R4))', 'R = regexp_simplify(Concat(R1, Concat(Iteration(R2), R3)))', 'R-MODEL.M4'),
+    ('m4-roles', ['C06'], A + 'regexp_algorithms.py', '                R3 = delta[q_rip, q_j]', '                R3 = delta[q_j, q_rip]', 'R-MODEL.M4'),
+    ('m4-overwrite-edge', ['C06'], A + 'regexp_algorithms.py', '        if (q, q1) in delta1:\n            delta1[q, q1] = regexp.Sum(delta1[q, q1], regexp.Symbol(a))\n        else:\n            delta1[q, q1] = regexp.Symbol(a)', '        delta1[q, q1] = regexp.Symbol(a)', 'R-MODEL.M4'),
+    ('m5-elif-changed', ['C10'], A + 'pda_algorithms.py', '            elif u != epsilon and v != epsilon:', '            elif u != epsilon and v != epsilon and u != v:', 'R-MODEL.M5'),
+    ('m5-lost-pop', ['C10'], A + 'pda_algorithms.py', '                delta1[p, a, u].add((q_mid, epsilon))\n                delta1[q_mid, epsilon, epsilon].add((q, v))', '                delta1[p, a, epsilon].add((q_mid, dummy))\n                delta1[q_mid, epsilon, dummy].add((q, epsilon))', 'R-MODEL.M5'),
+    ('m6-no-clamp', ['C11'], A + 'tm_algorithms.py', "head1 = max(head - 1, 0) if d == 'L' else head + 1", "head1 = head - 1 if d == 'L' else head + 1", 'R-MODEL.M6'),
+    ('m6-default-left', ['C11'], A + 'tm_algorithms.py', "q, b, d = T.q_reject, a, Direction('R')", "q, b, d = T.q_reject, a, Direction('L')", 'R-MODEL.M6'),
+    ('m6-default-accept', ['C11'], A + 'tm_algorithms.py', "q, b, d = T.q_reject, a, Direction('R')", "q, b, d = T.q_accept, a, Direction('R')", 'R-MODEL.M6'),
+    ('m7-range-shift', ['C07'], A + 'cfg_algorithms.py', '            for k in range(i, j):\n                if verbose: print', '            for k in range(i + 1, j):\n                if verbose: print', 'R-MODEL.M7'),
+    ('m7-outer-order', ['C07'], A + 'cfg_algorithms.py', '    for m in range(1, n):\n        for i in range(n - m):', '    for m in range(n - 1, 0, -1):\n        for i in range(n - m):', 'R-MODEL.M7'),
+    ('m7-pair-swapped', ['C07'], A + 'cfg_algorithms.py', 'X[i, j] |= set(A for A in V if [B, C] in P[A])', 'X[i, j] |= set(A for A in V if [C, B] in P[A])', 'R-MODEL.M7'),
+    ('m8-suffix', ['C14'], A + 'language_algorithms.py', 'return any(w[:i] in L for i in range(len(w)))', 'return any(w[i:] in L for i in range(len(w)))', 'R-MODEL.M8'),
+    ('m8-skip-empty-prefix', ['C14'], A + 'language_algorithms.py', 'return any(w[:i] in L for i in range(len(w)))', 'return any(w[:i] in L for i in range(1, len(w)))', 'R-MODEL.M8'),
+    ('m8-dfa-column', ['C15'], A + 'dfa_algorithms.py', '        result.append((q, word[k:]))', '        result.append((q, word[:-k]))', 'R-MODEL.M8'),
+    ('m8-append-not-prepend', ['C15'], A + 'nfa_algorithms.py', '            word = a + word\n            result = [(front, word)] + result', '            word = word + a\n            result = [(front, word)] + result', 'R-MODEL.M8'),
+    # ---- R-CLOSED ------------------------------------------------------------------------------------------------------------------------
+    ('closed-accept-raw', ['C01'], A + 'nfa_algorithms.py', '    q: Set[State] = Eq[q0]\n', '    q: Set[State] = {q0}\n', 'R-CLOSED'),
+    ('closed-subset-raw', ['C03'], A + 'nfa_algorithms.py', '            Q2 = epsilon_closure(N, Q2)\n            stateQ2 = state(Q2)', '            stateQ2 = state(Q2)', 'R-CLOSED'),
+    ('closed-initial-raw', ['C03'], A + 'nfa_algorithms.py', '    Q0: Set[State] = epsilon_closure(N, {N.q0})', '    Q0: Set[State] = {N.q0}', 'R-CLOSED'),
+    ('closed-pda-no-final-closure', ['C09'], A + 'pda_algorithms.py', '        R = pda_do_transition(P, Symbol(a), R)\n        R = pda_epsilon_closure(P, R)\n    return any(r.q in F for r in R)', '        R = pda_do_transition(P, Symbol(a), R)\n    return any(r.q in F for r in R)', 'R-CLOSED'),
+    ('closed-cache-raw', ['C01'], A + 'nfa_algorithms.py', '        Eq[q] = epsilon_closure(N, q)', '        Eq[q] = {q}', 'R-CLOSED'),
+    ('closed-history', ['C15'], A + 'nfa_algorithms.py', '    R = {N.q0}\n    H.append(R)\n    R = epsilon_closure(N, R)\n    H.append(R)', '    R = {N.q0}\n    R = epsilon_closure(N, R)\n    H.append(R)', 'R-CLOSED.iv'),
+    ('closed-checker-target', ['C12'], A + 'notebook_nfa2dfa.py', '        q1_states_expected = epsilon_closure(N, q1_states_expected)\n', '', 'R-CLOSED'),
+    # ---- R-FEEDBACK --------------------------------------------------------------------------------------------------------------------------
+    ('fb-kill', ['C12'], A + 'notebook_dfa.py', "            feedback.append('The state {} should not be final'.format(q))\n\n        print_feedback(feedback)", "            feedback.append('The state {} should not be final'.format(q))\n\n        feedback = []\n        print_feedback(feedback)", 'R-FEEDBACK.K1'),
+    ('fb-overwrite', ['C12'], A + 'notebook_dfa.py', '        feedback = feedback + compare_languages(L, union(L1, L2))', '        feedback = compare_languages(L, union(L1, L2))', 'R-FEEDBACK.K1'),
+    ('fb-dropped-call', ['C12'], A + 'notebook.py', '        feedback.extend(compare_languages(A_words, words))', '        compare_languages(A_words, words)', 'R-FEEDBACK.K1'),
+    ('fb-ok-after-error', ['C12'], A + 'notebook.py', "            print(\"Error: word '{}' should be accepted\".format(word))\n            return\n", "            print(\"Error: word '{}' should be accepted\".format(word))\n", 'R-FEEDBACK.K2'),
+    ('fb-handler-ok', ['C12'], A + 'notebook.py', "        feedback = check_equal_languages(R, D, length)\n        print_feedback(feedback)\n    except Exception as e:\n        print('Error: {}'.format(e))", "        feedback = check_equal_languages(R, D, length)\n        print_feedback(feedback)\n    except Exception as e:\n        print('OK')", 'R-FEEDBACK.K3'),
+    ('fb-args-swapped', ['C12'], A + 'notebook_dfa.py', '        feedback = feedback + compare_languages(L1, L2)\n\n        print_feedback(feedback)\n\n    except', '        feedback = feedback + compare_languages(L2, L1)\n\n        print_feedback(feedback)\n\n    except', 'R-FEEDBACK.K4'),
+    ('fb-messages-swapped', ['C12'], A + 'language_generator.py', "    A1minusA2 = sorted(A1 - A2, key=lambda x: (len(x)))\n    A2minusA1 = sorted(A2 - A1, key=lambda x: (len(x)))", "    A1minusA2 = sorted(A2 - A1, key=lambda x: (len(x)))\n    A2minusA1 = sorted(A1 - A2, key=lambda x: (len(x)))", 'R-FEEDBACK.K4'),
+    ('fb-last-word', ['C12'], A + 'language_generator.py', '        word = A1minusA2[0]', '        word = A1minusA2[-1]', 'R-FEEDBACK.K5'),
+    ('fb-reverse-sort', ['C12'], A + 'language_generator.py', 'A2minusA1 = sorted(A2 - A1, key=lambda x: (len(x)))', 'A2minusA1 = sorted(A2 - A1, key=lambda x: (len(x)), reverse=True)', 'R-FEEDBACK.K5'),
+    ('fb-different-bounds', ['C12'], A + 'notebook_dfa.py', '        L1 = generate_language(answer, length)\n        L2 = language_reverse(generate_language(D, length))', '        L1 = generate_language(answer, length)\n        L2 = language_reverse(generate_language(D, length + 1))', 'R-FEEDBACK.K6'),
+    ('fb-max-states-polarity', ['C12'], A + 'notebook.py', '    if 0 < max_states < len(A.Q):', '    if 0 < len(A.Q) < max_states:', 'R-FEEDBACK.K7'),
+    ('fb-own-compare', ['C12'], A + 'notebook.py', '        feedback = check_equal_languages(R, D, length)', '        feedback = check_equal_languages(D, D, length)', 'R-FEEDBACK.K4'),
+    # ---- R-BUILD / R-IO / R-DISPATCH -------------------------------------------------------------------------------------------------------------
+    ('build-check-dropped', ['C17'], A + 'nfa_algorithms.py', '        self._check_states_are_declared()\n        self._check_state_labels()\n        self._check_one_initial_state()\n        epsilon = self.parse_symbol()\n        input_symbols = self.get_symbol_set(\'input_symbols\', self.used_input_symbols(epsilon))\n        self._check_symbols(input_symbols)\n\n        Q = set(State(s) for s in A.states)\n        Sigma = set(Symbol(s) for s in input_symbols)\n        delta = defaultdict(set)\n        q0 = State(next(iter(A.initial_states)))\n        F = set(State(s) for s in A.final_states)\n        epsilon = Symbol(epsilon)', '        self._check_states_are_declared()\n        self._check_state_labels()\n        epsilon = self.parse_symbol()\n        input_symbols = self.get_symbol_set(\'input_symbols\', self.used_input_symbols(epsilon))\n        self._check_symbols(input_symbols)\n\n        Q = set(State(s) for s in A.states)\n        Sigma = set(Symbol(s) for s in input_symbols)\n        delta = defaultdict(set)\n        q0 = State(next(iter(A.initial_states)))\n        F = set(State(s) for s in A.final_states)\n        epsilon = Symbol(epsilon)', 'R-BUILD.checks'),
+    ('build-total-dropped', ['C17'], A + 'dfa_algorithms.py', '        self._check_symbols(input_symbols)\n        self._check_is_total(input_symbols)\n', '        self._check_symbols(input_symbols)\n', 'R-BUILD.checks'),
+    ('build-no-validity', ['C17'], A + 'dfa_algorithms.py', '            delta[p, a] = q\n        return DFA(Q, Sigma, delta, q0, F)', '            delta[p, a] = q\n        return DFA(Q, Sigma, delta, q0, F, check_validity=False)', 'R-BUILD.checks'),
+    ('build-initial-polarity', ['C17'], A + 'automaton_algorithms.py', "        elif len(A.initial_states) > 1:\n            raise RuntimeError('the automaton has multiple initial states')", "        elif len(A.initial_states) > 2:\n            raise RuntimeError('the automaton has multiple initial states')", 'R-BUILD.guard'),
+    ('build-dup-key-skipped', ['C17'], A + 'automaton_algorithms.py', "            keyword = words[0]\n            self._check_no_duplicate_keys(keyword)\n            self.items[keyword] = words[1:]", "            keyword = words[0]\n            self.items[keyword] = words[1:]", 'R-BUILD.dup'),
+    ('build-invariant-dropped', ['C17', 'C01'], A + 'nfa.py', '        assert epsilon not in Sigma\n', '', 'R-BUILD.inv'),
+    ('build-deterministic-polarity', ['C17'], A + 'dfa_algorithms.py', "            if (p, a) in V:\n                raise RuntimeError('the automaton is not deterministic", "            if (p, a) not in V:\n                raise RuntimeError('the automaton is not deterministic", 'R-BUILD.guard'),
+    ('build-optional-truthy', ['C16', 'C17'], A + 'tm_algorithms.py', '        if input_symbols is None:', '        if not input_symbols:', 'R-BUILD.optional'),
+    ('io-keyword-renamed', ['C16', 'C13'], A + 'nfa_algorithms.py', "    out.write('input_symbols {}\\n'.format(' '.join(sorted(Sigma))))\n    out.write('epsilon {}\\n'.format(epsilon))", "    out.write('alphabet {}\\n'.format(' '.join(sorted(Sigma))))\n    out.write('epsilon {}\\n'.format(epsilon))", 'R-IO.a'),
+    ('io-format-permuted', ['C16', 'C17'], A + 'pda_algorithms.py', "append('{},{}{}'.format(a, u, v))", "append('{},{}{}'.format(a, v, u))", 'R-IO.b'),
+    ('io-unpack-permuted', ['C16', 'C17'], A + 'tm_algorithms.py', '            a, b, _, d = label', '            b, a, _, d = label', 'R-IO.b'),
+    ('io-product-format', ['C13'], A + 'dfa_algorithms.py', "        return State('({},{})'.format(q1,q2))\n\n    states = list(itertools.product(Q1, Q2))", "        return State('<{},{}>'.format(q1,q2))\n\n    states = list(itertools.product(Q1, Q2))", 'R-IO.c'),
+    ('io-state-regex', ['C13'], A + 'automaton_algorithms.py', "    return r'\\{[\\w,]*\\}'", "    return r'\\{\\w*\\}'", 'R-IO.c'),
+    ('io-precedence', ['C16'], A + 'regexp.py', '    elif isinstance(r, Concat):\n        return 8\n    elif isinstance(r, Sum):\n        return 7', '    elif isinstance(r, Concat):\n        return 7\n    elif isinstance(r, Sum):\n        return 8', 'R-IO.d'),
+    ('io-cfg-epsilon', ['C16', 'C13'], A + 'cfg_algorithms.py', "        if not a.symbols:\n            return 'ε'\n        return ''.join(a.symbols)", "        if not a.symbols:\n            return G.epsilon\n        return ''.join(a.symbols)", 'R-IO.e'),
+    ('dispatch-callee-swapped', ['C02', 'C12'], A + 'language_generator.py', '        result = gambatools.nfa_algorithms.nfa_words_up_to_n(L, n)', '        result = gambatools.dfa_algorithms.dfa_words_up_to_n(L, n)', 'R-DISPATCH.b'),
+    ('dispatch-branch-deleted', ['C02'], A + 'language_generator.py', '    elif isinstance(L, gambatools.tm.TM):\n        result = gambatools.tm_algorithms.tm_words_up_to_n(L, n)\n', '', 'R-DISPATCH.b'),
+    ('dispatch-ext-swapped', ['C02', 'C12'], A + 'notebook.py', "    elif filename.endswith('.nfa'):\n        return parse_nfa", "    elif filename.endswith('.nfa'):\n        return parse_dfa", 'R-DISPATCH.b'),
+    ('dispatch-regexp-case-missing', ['C05'], A + 'regexp_algorithms.py', '    elif isinstance(r, Iteration):\n        return regexp_size(r.operand) + 1\n', '', 'R-DISPATCH.a'),
+    ('dispatch-generator-default', ['C06'], A + 'regexp_algorithms.py', 'return nfa_repetition(self.generate(x.operand), self.id_generator)', 'return nfa_repetition(self.generate(x.operand))', 'R-DISPATCH.a'),
+    ('dispatch-generator-wrong-block', ['C06'], A + 'regexp_algorithms.py', 'return nfa_union(self.generate(x.left), self.generate(x.right), self.id_generator)', 'return nfa_concatenation(self.generate(x.left), self.generate(x.right))', 'R-DISPATCH.a'),
+    ('dispatch-template-command', ['C13'], 'notebooks/templates/dfa-reverse.ipynb', '<<dfa_reverse(inputfile)?>>', '<<dfa_mirror(inputfile)?>>', 'R-DISPATCH.c'),
+    ('dispatch-command-arity', ['C13'], 'notebooks/make_notebook.py', "    elif command == 'dfa_union':\n        inputfile1, inputfile2 = arguments", "    elif command == 'dfa_union':\n        inputfile1, inputfile2, extra = arguments", 'R-DISPATCH.c'),
+    # ---- R-BOUND / R-TM / misc ------------------------------------------------------------------------------------------------------------------------
+    ('bound-dfa-range', ['C02'], A + 'dfa_algorithms.py', "    W = {(D.q0, '')}\n    for i in range(n):", "    W = {(D.q0, '')}\n    for i in range(n + 1):", 'R-BOUND'),
+    ('bound-nfa-range', ['C02'], A + 'nfa_algorithms.py', "    for i in range(n):\n        W1 = defaultdict(lambda: set([]))  # W1", "    for i in range(n - 1):\n        W1 = defaultdict(lambda: set([]))  # W1", 'R-BOUND'),
+    ('bound-tm-range', ['C02'], A + 'tm_algorithms.py', '    for i in range(n + 1):\n        for w in itertools.product(Sigma, repeat = i):', '    for i in range(1, n + 1):\n        for w in itertools.product(Sigma, repeat = i):', 'R-BOUND'),
+    ('bound-cfg-unguarded', ['C02'], A + 'cfg_algorithms.py', '    if n >= 1:\n        words = words | make_words([G.S])', '    words = words | make_words([G.S])', 'R-BOUND'),
+    ('bound-cfg-range', ['C02'], A + 'cfg_algorithms.py', '    for i in range(2, n + 1):\n        W = remove_duplicates', '    for i in range(2, n + 2):\n        W = remove_duplicates', 'R-BOUND'),
+    ('bound-regexp-symbol', ['C02'], A + 'regexp_algorithms.py', '        result = {r.symbol} if n > 0 else set([])', '        result = {r.symbol}', 'R-BOUND.regexp'),
+    ('bound-regexp-budget', ['C02'], A + 'regexp_algorithms.py', 'concatenate(regexp_words_up_to_n(r.left, k), regexp_words_up_to_n(r.right, n - k)) for k in range(n + 1)', 'concatenate(regexp_words_up_to_n(r.left, k), regexp_words_up_to_n(r.right, n)) for k in range(n + 1)', 'R-BOUND.regexp'),
+    ('bound-regexp-star-zero', ['C02'], A + 'regexp_algorithms.py', 'regexp_words_up_to_n(r, n - k)) for k in range(1, n + 1)', 'regexp_words_up_to_n(r, n - k)) for k in range(0, n + 1)', 'R-BOUND.regexp'),
+    ('bound-words-range', ['C02', 'C14'], A + 'language_algorithms.py', 'for i in range(n+1)])', 'for i in range(n)])', 'R-BOUND'),
+    ('tm-loops-differ', ['C11'], A + 'tm_algorithms.py', '    for _ in range(max_steps):\n        q, head = tm_do_transition(T, q, tape, head)\n        result.append((q, tape[:], head))', '    for _ in range(max_steps + 1):\n        q, head = tm_do_transition(T, q, tape, head)\n        result.append((q, tape[:], head))', 'R-TM.agree'),
+    ('tm-no-initial-test', ['C11'], A + 'tm_algorithms.py', '    if q == q_accept:\n        return True\n    if q == q_reject:\n        return False\n\n    for _ in range(max_steps):', '    for _ in range(max_steps):', 'R-TM.pre'),
+    ('tm-verdict-swapped', ['C11'], A + 'tm_algorithms.py', '        if q == q_accept:\n            return True\n        if q == q_reject:\n            return False\n    return None', '        if q == q_accept:\n            return False\n        if q == q_reject:\n            return True\n    return None', 'R-TM.verdict'),
+    ('tm-budget-default', ['C11', 'C02'], A + 'tm_algorithms.py', 'def tm_words_up_to_n(T: TM, n: int, max_steps: int = 1000) -> Set[str]:', 'def tm_words_up_to_n(T: TM, n: int, max_steps: int = 100) -> Set[str]:', 'R-TM.budget'),
+    ('tm-budget-not-forwarded', ['C11', 'C02'], A + 'tm_algorithms.py', '            if tm_accepts_word(T, word, max_steps):', '            if tm_accepts_word(T, word):', 'R-TM.budget'),
+    ('arity-no-length-test', ['C15', 'C07'], A + 'cfg_algorithms.py', '            if len(BC) != 2:\n                continue\n            B, C = BC', '            B, C = BC', 'R-ARITY'),
+    ('slot-unfiltered', ['C04'], A + 'dfa_algorithms.py', '    Q_r: Set[State] = set(state(Q_i) for Q_i in Q_ if Q_i)', '    Q_r: Set[State] = set(map(state, Q_))', 'R-SLOT'),
+    ('sym-no-inverse', ['C20'], A + 'dfa_algorithms.py', '        matching[q1] = q2\n        inverse[q2] = q1', '        matching[q1] = q2', 'R-SYM'),
+    ('sym-and', ['C20'], A + 'dfa_algorithms.py', '        if matching.get(q1, q2) != q2 or inverse.get(q2, q1) != q1:', '        if matching.get(q1, q2) != q2 and inverse.get(q2, q1) != q1:', 'R-SYM.or'),
+    ('sibling-hopcroft-reachable', ['C04', 'C13'], A + 'dfa_algorithms.py', '    # D = dfa_remove_unreachable_states(D)\n', '    D = dfa_remove_unreachable_states(D)\n', 'R-SIBLING'),
+    ('cnf-epsilon-before-conversion', ['C07'], A + 'cfg_algorithms.py', '    if not G.is_chomsky():\n        G = cfg_to_chomsky(G)\n        if verbose:\n            print(\'grammar converted to Chomsky:\')\n            print(G)\n\n    R = G.R\n    S = G.S\n', '    R = G.R\n    S = G.S\n\n    if not G.is_chomsky():\n        G = cfg_to_chomsky(G)\n', 'R-CNF'),
+    ('cnf-no-conversion-guard', ['C02'], A + 'cfg_algorithms.py', 'def cfg_words_up_to_n(G: CFG, n: int) -> Set[str]:\n    if not G.is_chomsky():\n        G = cfg_to_chomsky(G)\n    S = G.S', 'def cfg_words_up_to_n(G: CFG, n: int) -> Set[str]:\n    S = G.S\n    if not G.is_chomsky():\n        G = cfg_to_chomsky(G)', 'R-CNF'),
+    ('pdaform-no-drain', ['C10'], A + 'pda_algorithms.py', '        for X in Gamma - {stack_bottom}:\n            delta[q, epsilon, X].add((q_drain, epsilon))\n', '', 'R-PDAFORM.drain'),
+    ('pdaform-wrong-skip', ['C10'], A + 'pda_algorithms.py', '    if not accepts_on_empty_stack:\n        pda_to_accept_on_empty_stack_in_place(P)', '    if accepts_on_empty_stack:\n        pda_to_accept_on_empty_stack_in_place(P)', 'R-PDAFORM'),
+    ('pdaform-guard-dropped', ['C09'], A + 'pda_algorithms.py', '            for (q, v) in Q1:\n                if pda_can_pop_push(P, stack, u, v):\n                    stack1 = pda_pop_push(P, stack, u, v)\n                    r1 = PDAState(q, stack1)', '            for (q, v) in Q1:\n                if True:\n                    stack1 = pda_pop_push(P, stack, u, v)\n                    r1 = PDAState(q, stack1)', 'R-PDAFORM.guard'),
+    ('phase-swapped', ['C08'], A + 'notebook_chomsky.py', '    if phase >= 2:\n        cfg_remove_epsilon_rules_in_place(G1)\n    if phase >= 3:\n        cfg_eliminate_unit_rules_in_place(G1)', '    if phase >= 2:\n        cfg_eliminate_unit_rules_in_place(G1)\n    if phase >= 3:\n        cfg_remove_epsilon_rules_in_place(G1)', 'R-PHASE'),
+    ('w6-iterator-hoisted', ['C04', 'C19'], A + 'dfa_algorithms.py', '    changed = True\n    while changed:\n        changed = False\n        for i, j in itertools.combinations(range(n), 2):', '    pairs = itertools.combinations(range(n), 2)\n    changed = True\n    while changed:\n        changed = False\n        for i, j in pairs:', 'R-WORK.W6'),
+]
+
+# (id, properties, file, old, new) -- behaviour-preserving; must stay quiet
+REFACTORINGS = [
+    ('rf-closure-augassign', ['C01', 'C19'], A + 'nfa_algorithms.py', '        result = result | Q1\n        todo = todo | Q1', '        result = result | Q1\n        todo |= Q1'),
+    ('rf-closure-len-test', ['C01'], A + 'nfa_algorithms.py', '    while todo:\n        q = todo.pop()\n        Q1: Set[State]', '    while len(todo) > 0:\n        q = todo.pop()\n        Q1: Set[State]'),
+    ('rf-accept-bool-and', ['C01'], A + 'nfa_algorithms.py', '    return not q.isdisjoint(F)\n\n\ndef nfa_words_up_to_n', '    return not q.isdisjoint(F) and True\n\n\ndef nfa_words_up_to_n'),
+    ('rf-subset-rename', ['C03'], A + 'nfa_algorithms.py', '    todo = [Q0]\n\n    while todo:\n        Q1 = todo.pop()', '    todo = [Q0]\n\n    while len(todo) != 0:\n        Q1 = todo.pop()'),
+    ('rf-minimize-flag-name', ['C04'], A + 'dfa_algorithms.py', '    changed = True\n    while changed:\n        changed = False\n        for i, j in itertools.combinations(range(n), 2):\n            if table[i, j]:\n                for a in Sigma:\n                    k = q.index(delta[q[i], a])\n                    l = q.index(delta[q[j], a])\n                    if not table[min(k, l), max(k, l)]:\n                        table[i, j] = False\n                        changed = True', '    dirty = True\n    while dirty:\n        dirty = False\n        for i, j in itertools.combinations(range(n), 2):\n            if table[i, j]:\n                for a in Sigma:\n                    k = q.index(delta[q[i], a])\n                    l = q.index(delta[q[j], a])\n                    if not table[min(k, l), max(k, l)]:\n                        table[i, j] = False\n                        dirty = True'),
+    ('rf-complement-copy-style', ['C14', 'C19'], A + 'dfa_algorithms.py', '    return DFA(set(Q), Sigma, dict(delta), q0, Q - F)', '    return DFA(Q.copy(), Sigma, delta.copy(), q0, Q.difference(F))'),
+    ('rf-product-truth', ['C14'], A + 'dfa_algorithms.py', "if (q1 in F1 and q2 not in F2) or (q1 not in F1 and q2 in F2))", "if (q1 in F1) != (q2 in F2))"),
+    ('rf-noprefix-slice-name', ['C14'], A + 'language_algorithms.py', 'return any(w[:i] in L for i in range(len(w)))', 'return any(w[:k] in L for k in range(0, len(w)))'),
+    ('rf-simplify-extra-sound-rule', ['C05', 'C06'], A + 'regexp_algorithms.py', '        elif isinstance(right, Zero):\n            result = left\n        else:\n            result = Sum(left, right)', '        elif isinstance(right, Zero):\n            result = left\n        elif left is right:\n            result = left\n        else:\n            result = Sum(left, right)'),
+    ('rf-rip-term-reassociated', ['C06'], A + 'regexp_algorithms.py', 'R = regexp_simplify(Sum(Concat(R1, Concat(Iteration(R2), R3)), R4))', 'R = regexp_simplify(Sum(R4, Concat(Concat(R1, Iteration(R2)), R3)))'),
+    ('rf-cyk-comment', ['C07'], A + 'cfg_algorithms.py', '    for m in range(1, n):\n        for i in range(n - m):\n            j = i + m', '    for m in range(1, n):  # span length minus one\n        for i in range(0, n - m):\n            j = m + i'),
+    ('rf-chomsky-logging', ['C08', 'C19'], A + 'cfg_algorithms.py', "def cfg_to_chomsky(G: CFG, verbose: bool = False) -> CFG:\n    G = copy.deepcopy(G)\n", "def cfg_to_chomsky(G: CFG, verbose: bool = False) -> CFG:\n    if verbose: print('converting')\n    G = copy.deepcopy(G)\n"),
+    ('rf-pda-bound-lte', ['C09'], A + 'pda_algorithms.py', '    iteration = 0\n\n    while len(todo) > 0 and iteration < max_iterations:\n        iteration += 1', '    iteration = 0\n\n    while len(todo) > 0 and iteration < max_iterations:\n        iteration = iteration + 1'),
+    ('rf-pushpop-or-order', ['C10'], A + 'pda_algorithms.py', '            elif u == epsilon and v == epsilon:', '            elif v == epsilon and u == epsilon:'),
+    ('rf-tm-max-form', ['C11'], A + 'tm_algorithms.py', "head1 = max(head - 1, 0) if d == 'L' else head + 1", "head1 = (head - 1 if head > 0 else 0) if d == 'L' else head + 1"),
+    ('rf-feedback-plus-equal', ['C12'], A + 'notebook_dfa.py', '        feedback = feedback + compare_languages(L, union(L1, L2))', '        feedback += compare_languages(L, union(L1, L2))'),
+    ('rf-feedback-min', ['C12'], A + 'language_generator.py', "    A1minusA2 = sorted(A1 - A2, key=lambda x: (len(x)))", "    A1minusA2 = sorted(A1 - A2, key=len)"),
+    ('rf-template-whitespace', ['C13'], 'notebooks/templates/dfa-union.ipynb', '<<dfa_union(inputfile1,inputfile2)?>>', '<<dfa_union(inputfile1, inputfile2)?>>'),
+    ('rf-sim-column-len', ['C15'], A + 'dfa_algorithms.py', '        result.append((q, word[k:]))', '        result.append((q, word[k:len(word)]))'),
+    ('rf-printer-fstring-free', ['C16'], A + 'tm_algorithms.py', "    out.write('blank {}\\n'.format(blank))", "    out.write('blank ' + '{}\\n'.format(blank))"),
+    ('rf-builder-order', ['C17'], A + 'dfa_algorithms.py', '        self._check_states_are_declared()\n        self._check_state_labels()\n        self._check_one_initial_state()\n        self._check_is_deterministic()', '        self._check_state_labels()\n        self._check_states_are_declared()\n        self._check_one_initial_state()\n        self._check_is_deterministic()'),
+    ('rf-union-sigma-order', ['C18', 'C06'], A + 'nfa_algorithms.py', 'def nfa_union(N1: NFA, N2: NFA, id_generator: IdentifierGenerator = IdentifierGenerator()) -> NFA:\n    assert N1.Q.isdisjoint(N2.Q)\n    Sigma = N1.Sigma | N2.Sigma', 'def nfa_union(N1: NFA, N2: NFA, id_generator: IdentifierGenerator = IdentifierGenerator()) -> NFA:\n    assert N1.Q.isdisjoint(N2.Q)\n    Sigma = N2.Sigma | N1.Sigma'),
+    ('rf-iso-loop-form', ['C20'], A + 'dfa_algorithms.py', '    while len(todo) > 0:\n        (q1, q2) = set_element(todo)\n        todo.remove((q1, q2))\n        if (q1 in F1) != (q2 in F2):', '    while todo:\n        (q1, q2) = set_element(todo)\n        todo.remove((q1, q2))\n        if (q1 in F1) != (q2 in F2):'),
+    ('rf-bound-while-free', ['C02'], A + 'tm_algorithms.py', '    for i in range(n + 1):\n        for w in itertools.product(Sigma, repeat = i):', '    for i in range(0, n + 1):\n        for w in itertools.product(Sigma, repeat=i):'),
+]
+
+
+def seeded_patches():
+    """the independently written regressions under /verif/seeded, as (id, property, patch text)"""
+    out = []
+    root = os.path.join(os.path.dirname(os.path.dirname(os.path.dirname(os.path.abspath(__file__)))), 'seeded')
+    for d in sorted(glob.glob(os.path.join(root, '*'))):
+        try:
+            meta = json.load(open(os.path.join(d, 'meta.json'), encoding='utf8'))
+            patch = open(os.path.join(d, 'patch.diff'), encoding='utf8').read()
+        except OSError:
+            continue
+        out.append((os.path.basename(d), meta.get('property'), patch, meta))
+    return out
+
+
 def run(prop, tier, seed):
-    return {'mutants': 0, 'killed': 0, 'missed': [], 'skipped': [], 'quiet': 0, 'false_alarms': []}
+    from . import runner
+    return runner.run(prop, tier, seed)
